@@ -19,7 +19,8 @@ META = {
                    "status logs, sizes, bet ids, the handler queue and the foreign-request counter after every update."),
     "level_note": ("Trusted: Lean kernel + standard axioms; hand-written world model validated by whole-simulation correspondence. The global claim "
                    "(every status an order ever passes through) is the per-step theorems plus the oracle that wraps BaseOrder._update_status in "
-                   "every run; the replace handler's re-placement branch is covered by correspondence and oracle, not by a theorem. Betfair / Betdaq "
+                   "every run; the replace handler's re-placement branch: the replacement order it creates ends EXECUTABLE or EXECUTION_COMPLETE "
+                   "(C12 replacement_order_is_settled), the rest of it by correspondence and oracle. Betfair / Betdaq "
                    "live handlers and order-stream mapping: live domain (C11, C12); Betdaq order class: Betdaq.lean (guards iff, in-flight exclusion, "
                    "finality under every report and stream update, legal stream steps) tied to the real BetdaqOrder / BetdaqExecution / "
                    "process_betdaq_current_order by its own correspondence stream."),
